@@ -4,7 +4,7 @@
 From Coq Require Import List NArith ZArith Bool.
 From Coq.Strings Require Import Byte.
 Require Import GV.Base.Res GV.Base.Byt GV.Base.Ints GV.Model.Leb GV.Model.Prim GV.Spec.LineSpec GV.Model.LineRd.
-Require Import GV.Proofs.LineRdBase GV.Proofs.LineRdMono GV.Proofs.LineRdCodec GV.Proofs.LineRdRefine GV.Proofs.LineRdInsn.
+Require Import GV.Proofs.LineRdBase GV.Proofs.LineRdMono GV.Proofs.LineRdCodec GV.Proofs.LineRdRefine GV.Proofs.LineRdInsn GV.Proofs.LineRdSeq.
 Import ListNotations.
 Local Open Scope N_scope.
 
@@ -178,6 +178,39 @@ Example insn_wf_example :
      IUnkStdN 15 [x81; x01; x00; xff; x7f]; IUnkExt 3 [x61; x00]; IUnkExt 255 [];
      IAdvanceLine (-9223372036854775808)%Z; ISetAddress 18446744073709551615; IFixedAddPc 65535] = true.
 Proof. exact insn_wf_examples. Qed.
+
+(* ------------------------------------------------------------------------------------------------
+   Clause 2: "splitting a program into sequences and resuming any sequence yields exactly the rows a
+   straight run yields for it, and each sequence's reported address bounds are its first and end
+   addresses". No well-formedness hypothesis: any header record, any program bytes, both build modes —
+   whenever sequences() returns Ok.
+   seq_good s := resume_from(s) runs to the end and its rows are  body ++ [e]  with no end_sequence row in
+                 body, e an end_sequence row, s.end = address of e, s.start = address of the first row of
+                 body (0 when the sequence consists of the end_sequence row alone).
+   ------------------------------------------------------------------------------------------------ *)
+Theorem sequences_eq_rows : forall dbg be h files ss,
+  sequences dbg be h = Ok (files, ss) ->
+  exists tail,
+    fst (rows_model dbg be h) = concat (map (fun s => fst (resume_rows dbg be h s)) ss) ++ tail /\
+    snd (rows_model dbg be h) = SEnd /\
+    Forall (fun r => r_end r = false) tail /\
+    Forall (seq_good dbg be h) ss /\
+    files = st_added (snd (rows_ghost dbg be h)).
+Proof. exact sequences_eq_rows_lemma. Qed.
+
+(* the fact it rests on: the instruction decoder only looks at the bytes it consumes *)
+Theorem parse_insn_is_local : forall dbg be h a suf i r,
+  parse_insn dbg be h (a ++ suf) = Ok (i, r) -> (length suf <= length r)%nat ->
+  exists x, r = x ++ suf /\ parse_insn dbg be h a = Ok (i, x).
+Proof. exact parse_insn_local. Qed.
+
+Example sequences_example : forall dbg,
+  match sequences dbg false sample_header with
+  | Ok (files, ss) => map (fun s => (sq_start s, sq_end s, length (sq_insns s))) ss =
+                      [(4100, 4104, 14%nat); (2048, 2048, 11%nat)] /\ files = []
+  | _ => False
+  end.
+Proof. exact sample_sequences. Qed.
 
 Check monotone_any_input_refuted : exists dbg be h, hdr_ok h /\ ~ rows_monotone (fst (rows_model dbg be h)).
 Check no_panic_parse_insn : forall dbg be h inp,
